@@ -22,6 +22,17 @@ def main():
             spec = json.load(f)
         try:
             res = mod.run_shard(spec)
+            # evidence: how many distinct interleavings (scheduler choice
+            # sequences) the threaded engine executed in this shard
+            try:
+                from vf import vsched
+                if vsched.STATS['runs']:
+                    ex = res.setdefault('extra', {})
+                    ex['scheduler_runs'] = vsched.STATS['runs']
+                    ex['scheduler_choices'] = vsched.STATS['choices']
+                    ex['distinct_schedule_signatures'] = len(vsched.SIGS)
+            except Exception:
+                pass
         except BaseException:
             res = {'inconclusive': ['harness exception in shard %r: %s' % (
                 spec, traceback.format_exc()[-3000:])]}
